@@ -217,6 +217,13 @@ VARIANTS = {
              "self._num_trials_by_status['COMPLETED'] += 1\n    with self._lock:\n        pass", 'C16.a', "_complete_trial#_num_trials_by_status"),
         fire('status-guard-dropped', LB, '_InMemoryFeedback._add_measurement', "if self._trial.status != 'PENDING':", 'if False:', 'C16.c', '_add_measurement'),
         fire('evolution-feedback-unlocked', EB, 'Evolution._feedback', 'with self._lock:', 'if True:', 'C16.a', 'Evolution._feedback#_population'),
+        fire('study-get-or-create-unlocked', LB, '_InMemoryBackend.__init__', 'with _in_memory_results_lock:', 'if True:', 'C16.b', '__init__#_in_memory_results'),
+        fire('create-trial-no-recheck', LB, '_InMemoryResult.create_trial', "if latest is not None and latest.status == 'PENDING':\n            return latest", 'pass', 'C16.b', 'next#_latest_trial_per_group'),
+        fire('done-claim-unlocked', LB, '_InMemoryFeedback.done', 'with self._study._lock:', 'if True:', 'C16.b', 'done#status'),
+        fire('skip-claim-unlocked', LB, '_InMemoryFeedback.skip', 'with self._study._lock:', 'if True:', 'C16.b', 'skip#status'),
+        fire('feedback-counter-unlocked', 'pyglove/core/geno/dna_generator.py', 'DNAGenerator.feedback', 'with self._counter_lock:', 'if True:', 'C16.d', 'feedback#_num_feedbacks'),
+        fire('write-under-other-lock', LB, '_InMemoryResult._complete_trial', 'with self._lock:', 'with _in_memory_results_lock:', 'C16.a', '_complete_trial#'),
+        silent('rename-counter-lock', 'pyglove/core/geno/dna_generator.py', '<module>', '_counter_lock', '_cnt_mutex', count=0),
         silent('rename-local-best', LB, '_InMemoryResult._complete_trial', 'best = self._best_trial', 'cur = self._best_trial',
                more=[('best is None', 'cur is None'), ('best.final_measurement', 'cur.final_measurement')]),
     ],
